@@ -23,8 +23,18 @@ theorem body_seed_eq (u : Bool) : Gen.C08.bodySeed u = seedOf u [.filename] := b
 theorem split_seed_eq (u : Bool) : Gen.C08.splitSeed u = seedOf u [.filename, .sliceNo] := by cases u <;> decide
 theorem crop_seed_eq : Gen.C08.crop_seed_fields = [.filename] := by decide
 
-theorem build_supervised_eq (c : Config) : Gen.C08.build_supervised c = buildSupervised c := rfl
+/-- `rfl` when the source has the modelled statement structure; otherwise both sides are normalised as
+lists first (so that e.g. splitting one `mri_transforms += [a, b]` into two statements is not an alarm) -/
+theorem build_supervised_eq (c : Config) : Gen.C08.build_supervised c = buildSupervised c := by
+  first
+  | rfl
+  | simp only [Gen.C08.build_supervised, buildSupervised, Gen.C08.zero_padding_threshold, thrCurrent,
+      Gen.C08.maskSeed, Gen.C08.bodySeed, List.append_assoc, List.cons_append, List.nil_append]
 
-theorem build_eq (c : Config) : Gen.C08.build c = build c := rfl
+theorem build_eq (c : Config) : Gen.C08.build c = build c := by
+  first
+  | rfl
+  | simp only [Gen.C08.build, build, build_supervised_eq, Gen.C08.splitSeed, List.append_assoc, List.cons_append,
+      List.nil_append]
 
 end DirectVerif.Bridge.C08
